@@ -33,21 +33,21 @@ def G(dim, minn, maxn, maxv, maxk, mod, per, sel=0, big=False, profiles=ALLP, de
 # (name, generator constants, exhaustive?)
 GEN = {
     "quick": [
-        # complete sub-domain: n <= 3 points on 0..2, 2 classes, default / min-leaf-2 / min-split-2.5 profiles, depth None / 1
-        ("d1-small", G(1, 1, 3, 2, 2, 1, 0, profiles="{1, 3, 8}", depths="{9, 1}"), True),
+        # complete sub-domain: n <= 3 points on 0..2, 2 classes, default / min-leaf-2 / min-split-2.5 profiles, depth None / 0 / 1
+        ("d1-small", G(1, 1, 3, 2, 2, 1, 0, profiles="{1, 3, 8}", depths="{9, 0, 1}"), True),
         # fractional minima on n = 3..4: a node / side holds exactly floor(threshold) samples / weight
-        ("d1-frac", G(1, 3, 4, 3, 2, 1, 2, profiles="{8, 9, 10, 11, 12, 13}", depths="{9, 2}"), False),
-        ("d1", G(1, 4, 6, 3, 3, 13, 2, depths="{9, 1, 2, 3}"), False),   # 13034 datasets / 13, 2 combinations each
-        ("d2", G(2, 4, 5, 2, 3, 60, 2, depths="{9, 1, 2, 3}"), False),   # 59697 datasets / 60, 2 combinations each
+        ("d1-frac", G(1, 3, 4, 3, 2, 1, 2, profiles="{8, 9, 10, 11, 12, 13}", depths="{9, 0, 2}"), False),
+        ("d1", G(1, 4, 6, 3, 3, 13, 2, depths="{9, 0, 1, 2, 3}"), False),   # 13034 datasets / 13, 2 combinations each
+        ("d2", G(2, 4, 5, 2, 3, 60, 2, depths="{9, 0, 1, 2, 3}"), False),   # 59697 datasets / 60, 2 combinations each
         ("f32-neighbours", G(1, 2, 3, 2, 2, 1, 12, big=True, profiles="{1, 3}", depths="{9, 1, 2}"), False),
     ],
     "thorough": [
         ("d1-small", G(1, 1, 3, 2, 3, 1, 0, profiles="{0, 1, 2, 3, 4, 5, 6, 7}"), True),
-        ("d1-frac", G(1, 2, 4, 3, 2, 1, 12, profiles="{8, 9, 10, 11, 12, 13}", depths="{9, 1, 2}"), False),
+        ("d1-frac", G(1, 2, 4, 3, 2, 1, 12, profiles="{8, 9, 10, 11, 12, 13}", depths="{9, 0, 1, 2}"), False),
         ("d1", G(1, 4, 5, 3, 3, 1, 5), False),
-        ("d1-n6", G(1, 6, 6, 3, 3, 2, 2, depths="{9, 1, 2, 3}"), False),
+        ("d1-n6", G(1, 6, 6, 3, 3, 2, 2, depths="{9, 0, 1, 2, 3}"), False),
         ("d2", G(2, 2, 4, 2, 3, 1, 2), False),
-        ("d2-n5", G(2, 5, 5, 2, 3, 6, 1, depths="{9, 1, 2, 3}"), False),
+        ("d2-n5", G(2, 5, 5, 2, 3, 6, 1, depths="{9, 0, 1, 2, 3}"), False),
         ("f32-neighbours", G(1, 2, 4, 3, 3, 1, 6, big=True, profiles="{1, 3, 5}", depths="{9, 1, 2, 3}"), False),
     ],
 }
@@ -82,7 +82,7 @@ def random_cases(ctx, count):
         lt = r.choice(["usize", "string"] + (["bool"] if max(y) <= 1 else []))
         out.append({"kind": "tree", "inp": {
             "x": x, "y": y, "w4": w4, "d": d, "crit": r.choice(["gini", "entropy"]),
-            "md": r.choice([-1, -1, 1, 2, 3, 5]), "mws4": mws4, "mwl4": mwl4, "mid6": mid6,
+            "md": r.choice([-1, -1, 0, 1, 2, 3, 5]), "mws4": mws4, "mwl4": mwl4, "mid6": mid6,
             "lt": lt, "ft": r.choice(["f64", "f32"]),
             "lay": r.choice(LAYOUTS) if d >= 2 else "std",
             "scale": {"off": 0, "mul": 1, "pm": 1, "plo": -1, "phi": (2 * maxv + 1) if d < 3 else 3}}})
@@ -167,6 +167,14 @@ def run(ctx):
     ctx.nontrivial = len(nt)
     ctx.extra["cases_with_two_or_more_splits"] = sum(1 for v in nt.values() if v >= 2)
     ctx.extra["cases_with_weights"] = sum(1 for t in traces if t["inp"]["w4"])
+    # every boundary class of max_depth must occur on data whose root could be split (>= 2 labels, >= 2 distinct rows):
+    # round 5 -- max_depth = Some(0) had silently dropped out of the quick grid when the families were re-tuned
+    def splittable(t):
+        return len(set(t["inp"]["y"])) >= 2 and len(set(map(tuple, t["inp"]["x"]))) >= 2
+    per_depth = {m: sum(1 for t in traces if t["inp"]["md"] == m and splittable(t)) for m in (-1, 0, 1, 2)}
+    ctx.extra["splittable_cases_per_max_depth"] = per_depth
+    if min(per_depth.values()) == 0:
+        raise vlib.ToolError("a max_depth class has no splittable case: %r" % per_depth)
     per_layout = {l: sum(1 for t in traces if t["inp"].get("lay") == l and splits(t) >= 1) for l in LAYOUTS}
     ctx.extra["split_cases_per_record_layout"] = per_layout
     if min(per_layout.values()) == 0:
